@@ -4,6 +4,7 @@
 // (b) assumed specifications of std / dependency functions, (c) the GneissError shim.
 // ---------------------------------------------------------------------------------------------
 #![feature(allocator_api)]
+#![feature(panic_internals, sized_hierarchy)]
 #![allow(unused_imports, dead_code, unused_variables, unused_mut, unused_assignments, unreachable_code, unused_parens, non_snake_case)]
 #![verifier::allow(autoderive_clone_without_spec)]
 extern crate alloc;
@@ -211,5 +212,19 @@ pub assume_specification<T, A: std::alloc::Allocator> [std::collections::VecDequ
     ensures r == (d@.len() == 0);
 pub assume_specification<'a, T, A: std::alloc::Allocator> [std::collections::VecDeque::<T, A>::front] (d: &'a VecDeque<T, A>) -> (r: Option<&'a T>)
     ensures match r { Some(x) => d@.len() > 0 && *x == d@[0], None => d@.len() == 0 };
+
+
+// assert_eq!/assert_ne! expand to core::panicking::assert_failed: a panic, hence `requires false`
+// (reaching it is a failed obligation, exactly like panic!)
+#[verifier::external_type_specification]
+pub struct ExAssertKind(core::panicking::AssertKind);
+pub assume_specification<T, U> [core::panicking::assert_failed] (_0: core::panicking::AssertKind, _1: &T, _2: &U, _3: std::option::Option<std::fmt::Arguments<'_>>) -> !
+    where T: std::marker::MetaSized + std::fmt::Debug + ?Sized, U: std::marker::MetaSized + std::fmt::Debug + ?Sized,
+    requires false;
+
+#[verifier::reject_recursive_types(I)]
+#[verifier::external_type_specification]
+#[verifier::external_body]
+pub struct ExCopied<I>(std::iter::Copied<I>);
 
 } // verus!
